@@ -15,7 +15,7 @@ theorem nextPos_inBandRow (dim band : Nat) (p : Nat × Nat) (h : InBandRow band 
 /-- an accepted text supplies exactly `elements` words, one write each, every write in the band of its row -/
 theorem fill_ok (dim band : Nat) : ∀ (ws : List (List Char)) (e : Nat) (p : Nat × Nat) (ps : List (Nat × Nat)),
     InBandRow band p → fill dim band ws e p = .ok ps →
-    ws.length = e ∧ ps.length = e ∧ (∀ w ∈ ws, Lit.isFloat w = true) ∧ ∀ q ∈ ps, InBandRow band q := by
+    ws.length = e ∧ ps.length = e ∧ (∀ w ∈ ws, Lit.toDoubleOk w = true) ∧ ∀ q ∈ ps, InBandRow band q := by
   intro ws
   induction ws with
   | nil =>
